@@ -1,7 +1,7 @@
 (* C10 — Compiled d-DNNF is a valid, equivalent circuit.
    Only statements; every proof is `exact <lemma>`. *)
 From Coq Require Import List Bool Arith ZArith QArith Qcanon.
-From PL.C10 Require Import ModelCircuit SpecDDNNF ModelOracle ProofsTree ProofsDag ProofsWMC ProofsInstances.
+From PL.C10 Require Import ModelCircuit SpecDDNNF SpecLabels ModelOracle ProofsTree ProofsDag ProofsWMC ProofsInstances ProofsLabels.
 Import ListNotations.
 Local Open Scope nat_scope.
 
@@ -63,6 +63,31 @@ Theorem C10_absent_literal : forall n C f v b, check_ddnnf n C f = true -> 1 <= 
 Proof. exact absent_literal. Qed.
 Print Assumptions C10_absent_literal.
 
+(* Soundness of `label_ok`, the model of _load_nnf's labelling rule, in ALL its cases (constant keys,
+   the absent-literal rule AND names mapped to an atom node, positively or negatively): if the rule
+   accepts the pair (CNF key k of a name, NNF key r of the same name) on a circuit the checker accepts
+   for f, then on every model a of f the NNF key's value in the circuit equals the truth value of the
+   labelled CNF literal -- queries and evidence denote the same thing before and after compilation.
+   The NNF-side value is given twice: `ref_evalb` (SpecLabels.v: `c_evalb` of the sub-circuit rooted at
+   the referenced node, negated for negative keys, true/false for the constant keys 0/None) and the
+   value the evaluator's forward pass itself reads for that key (`ref_val` on `vals`; a negative key
+   reads the second component of the node's (pos,neg) pair).  `ckey_in_range` (the labelled variable is
+   one of the CNF's 1..n) is needed only by the absent-literal case. *)
+Theorem C10_labels_sound : forall n C f k r,
+  check_ddnnf n C f = true -> ckey_in_range n k -> label_ok C k r = true ->
+  forall a, sat a f = true ->
+    ref_evalb a C r = key_evalb a k /\
+    ref_val (alg_bool a) (vals (alg_bool a) C) r = key_evalb a k.
+Proof. exact labels_sound. Qed.
+Print Assumptions C10_labels_sound.
+
+(* `ref_evalb` is the meaning the forward pass gives to EVERY key it reads (children of a well-formed
+   circuit as well as labels): positive keys always, negative keys whenever they point at an atom. *)
+Theorem C10_key_meaning_is_pass : forall a C r, key_ref_ok C r ->
+  ref_val (alg_bool a) (vals (alg_bool a) C) r = ref_evalb a C r.
+Proof. exact ref_evalb_pass. Qed.
+Print Assumptions C10_key_meaning_is_pass.
+
 (* the laws are satisfiable: exact rationals (Probability), Booleans, naturals (model counting) *)
 Theorem C10_semiring_instances : sr_laws QcOps /\ sr_laws BoolOps /\ sr_laws NatOps.
 Proof. exact (conj QcOps_laws (conj BoolOps_laws NatOps_laws)). Qed.
@@ -88,3 +113,12 @@ Example C10_example_eval :
   o_eval ex_circuit [(mkq 3%Z 10%positive, mkq 7%Z 10%positive); (mkq 4%Z 10%positive, mkq 6%Z 10%positive); (mkq 1%Z 2%positive, mkq 1%Z 2%positive); (mkq 1%Z 1%positive, mkq 0%Z 1%positive)] = mkq 1%Z 5%positive
   /\ o_wmc 4 ex_cnf [(mkq 3%Z 10%positive, mkq 7%Z 10%positive); (mkq 4%Z 10%positive, mkq 6%Z 10%positive); (mkq 1%Z 2%positive, mkq 1%Z 2%positive); (mkq 1%Z 1%positive, mkq 0%Z 1%positive)] = mkq 1%Z 5%positive.
 Proof. split; apply Qcanon.Qc_is_canon; vm_compute; reflexivity. Qed.
+(* non-vacuity of C10_labels_sound on the example: `a` is CNF variable 1 (atom node 10), `q` is CNF
+   variable 4 (atom node 0); a negated query on b (variable 2, atom node 3) is the negative key;
+   and the rule rejects a label that points at the wrong atom or carries the wrong sign *)
+Example C10_labels_example :
+  label_ok ex_circuit (KLit 1 true) (RPos 10) = true /\ label_ok ex_circuit (KLit 4 true) (RPos 0) = true /\
+  label_ok ex_circuit (KLit 2 false) (RNeg 3) = true /\ label_ok ex_circuit KTrue RT = true /\
+  label_ok ex_circuit (KLit 1 true) (RPos 0) = false /\ label_ok ex_circuit (KLit 2 false) (RPos 3) = false /\
+  label_ok ex_circuit (KLit 2 true) RF = false.
+Proof. vm_compute. repeat split. Qed.
